@@ -31,7 +31,8 @@ ASSUMPTIONS = [
     'finding), 0^0, 0^negative, negative^fraction, overflow',
 ]
 FLOORS = {'evaluate_outcomes': 2000, 'pairs_seen': 144,
-          'reassigned_evaluations': 300, 'chained_evaluations': 300, 'far_reference_cases': 60, 'long_chain_cases': 100, 'two_sheet_evaluations': 300,
+          'reassigned_evaluations': 300, 'chained_evaluations': 300, 'far_reference_cases': 60, 'long_chain_cases': 100,
+          'double_sign_and_big_float_cases': 80, 'two_sheet_evaluations': 300,
           'decimal_residue_cases': 100, 'postfix_percent_cases': 30, 'big_power_cases': 12, 'error_operand_cases': 300,
           'rendering_groups': 500}
 ANCHOR_FUNCS = {
@@ -775,6 +776,52 @@ def run(ctx):
                                       'reference': expect[1]},
                      kf=R.attribute(wb, ast, got), monitor='reference-value',
                      group='far-references')
+    # ---- whole-valued FLOATS beyond 2^53 are doubles (adding 1 changes nothing),
+    # and a doubled sign turns what it is applied to into a number, whatever
+    # operator produced it ----------------------------------------------------
+    if sh in (10, 11) or thorough:
+        cases = []
+        for big in (1e17, -1e17, 2.0 ** 53, 3e20, 9007199254740992.0):
+            # (expected values by double arithmetic, computed here)
+            cases += [('=A1+1=A1', {'A1': big}, ('bool', big + 1 == big)),
+                      ('=A1+1-A1', {'A1': big}, ('num', big + 1 - big)),
+                      ('=(A1+1)-A1+B1', {'A1': big, 'B1': 0.5},
+                       ('num', (big + 1) - big + 0.5)),
+                      ('=A1-1<A1', {'A1': big}, ('bool', big - 1 < big)),
+                      ('=A1*1+1>A1', {'A1': big},
+                       ('bool', big * 1 + 1 > big))]
+        for a, b in ((1, 2), (4, 0), (12, 5)):
+            joined = float(f'{a}{b}')
+            cases += [('=--(A1&B1)', {'A1': a, 'B1': b}, ('num', joined)),
+                      ('=--(A1&B1)>5', {'A1': a, 'B1': b},
+                       ('bool', joined > 5)),
+                      (f'={int(joined)}=--(A1&B1)', {'A1': a, 'B1': b},
+                       ('bool', True)),
+                      ('=-(-(A1&B1))=--(A1&B1)', {'A1': a, 'B1': b},
+                       ('bool', True)),
+                      ('=- - ( A1 & B1 )<1000', {'A1': a, 'B1': b},
+                       ('bool', True)),
+                      ('=--(A1&B1)*2', {'A1': a, 'B1': b},
+                       ('num', joined * 2)),
+                      ('=--(A1&B1)&"x"', {'A1': a, 'B1': b}, None),
+                      ('=--(A1=B1)+--(A1<>B1)', {'A1': a, 'B1': b},
+                       ('num', 1.0))]
+        for text, inputs, want in cases:
+            if want is None:
+                continue
+            got = subject.eval_one(text, inputs)
+            ctx.event('evaluate_outcomes')
+            ctx.event('double_sign_and_big_float_cases')
+            ctx.case(('double-sign-big-float', text, repr(inputs)))
+            ok = got == ('value', want) or (
+                got[0] == 'value' and want[0] == 'num'
+                and values_equal(got[1], want))
+            if not ok:
+                ctx.fail(f'{text} with {inputs}: observed {got}, expected '
+                         f'{want}', {'formula': text, 'cells': inputs,
+                                     'observed': got, 'reference': want},
+                         monitor='reference-value',
+                         group='double-sign-big-float:' + text[:6])
     # ---- long chains at one precedence level: hundreds of operands joined by
     # + and -, by * and /, or by & (left to right, whatever the length), also as
     # the operand of a comparison or of a lower-precedence operator ------------
